@@ -1,6 +1,7 @@
 import TlxVerif.Model.Drv
 import TlxVerif.Model.C08Msp
 import TlxVerif.Proofs.C08Checker
+import TlxVerif.Proofs.C08Inv
 open TlxVerif TlxVerif.C08
 
 def intCsv (s : String) : Option (List Int) :=
@@ -39,14 +40,18 @@ def stepOpt (ts : List String) : Option String :=
       match runM (partitionM c rank.toNat) with
       | .ok (offs, tr) =>
         -- certificate: the proved-sound checker (Proofs/C08Checker.lean) run on this very result
+        -- … and the loop invariant of the refinement (Proofs/C08Inv.lean) evaluated at every intermediate state
         let cert := offs.toList.all (fun x => decide (0 ≤ x)) &&
-          checkPartition cmp.fn runs rank.toNat (offs.toList.map Int.toNat)
+          checkPartition cmp.fn runs rank.toNat (offs.toList.map Int.toNat) &&
+          (rank.toNat == n || checkRun c .partition rank.toNat)
         pure s!"offs {showIntCsv offs.toList} cert {if cert then 1 else 0} tr {showTrace tr}"
       | .error e => pure s!"model-failure {e}"
     | "sel" =>
       if rank.toNat ≥ n then pure "bad-op" else
       match runM (selectionM c rank.toNat) with
-      | .ok ((v, off), tr) => pure s!"val {v} off {off} tr {showTrace tr}"
+      | .ok ((v, off), tr) =>
+        if checkRun c .selection rank.toNat then pure s!"val {v} off {off} tr {showTrace tr}"
+        else pure s!"val {v} off {off} tr {showTrace tr} INVARIANT-VIOLATED"
       | .error e => pure s!"model-failure {e}"
     | _ => none
   | _ => none
